@@ -35,6 +35,27 @@ def get_starting_tokens(smiles, big_mol):
     return start_fragments, start_probabilities
 
 
+def get_token_matches(mol, pattern, token):
+    """
+    Substructure matches of a token's pattern, distinguishing which atoms carry the bond descriptors.
+
+    `GetSubstructMatches` reports by default only one arbitrary match for each set of atoms.
+    For symmetric patterns like `[<]CC[>]`, it depends on the atom order of the molecule,
+    if this one match has the bond descriptors at the right atoms.
+    """
+    matches = []
+    known_matches = set()
+    for substructure in mol.GetSubstructMatches(pattern, uniquify=False, maxMatches=100000):
+        key = (
+            frozenset(substructure),
+            tuple(substructure[bd.atom_bonding_to] for bd in token.bond_descriptors),
+        )
+        if key not in known_matches:
+            known_matches.add(key)
+            matches.append(substructure)
+    return tuple(matches)
+
+
 class RememberAdd:
     def __init__(self, value):
         self._value = value
@@ -103,7 +124,7 @@ class PossibleMatch:
         self._element_weights = [RememberAdd(0.0) for _ in range(self._Nelements)]
         self._open_atoms = []
 
-        possible_substructures = mol.GetSubstructMatches(pattern)
+        possible_substructures = get_token_matches(mol, pattern, token)
         if substructure in possible_substructures:
             open_atoms = self._find_open_atoms(substructure, token)
             self._add_new_open_atoms(open_atoms)
@@ -290,7 +311,7 @@ class PossibleMatch:
             new_full = []
             pattern = Chem.MolFromSmiles(token.generate_smiles_fragment(), params.removeHs)
 
-            for substructure in match._mol.GetSubstructMatches(pattern):
+            for substructure in get_token_matches(match._mol, pattern, token):
                 open_atom_idx = id_open_atom(substructure, match, atom.new_atom)
                 if open_atom_idx is not None:
                     possible_bd = id_bond_descriptor(
@@ -382,7 +403,7 @@ def get_prob(smiles, big_mol):
     starting_token, starting_prob = get_starting_tokens(smiles, big_mol)
     for token, prob in zip(starting_token, starting_prob):
         pattern = Chem.MolFromSmiles(token.generate_smiles_fragment(), params.removeHs)
-        possible_substructures = mol.GetSubstructMatches(pattern)
+        possible_substructures = get_token_matches(mol, pattern, token)
         for substructure in possible_substructures:
             match = PossibleMatch(mol, big_mol, substructure, token, prob)
             if match.possible:
